@@ -1,0 +1,35 @@
+//go:build verif
+
+// Contracts for govc (/verif): C35 "Local topology order is a strictly increasing unique cursor" (kernel part: the in-memory sequence).
+// Comment-only file. Storage part: storage/zz_contracts_c35_verif.go.
+
+package kernel
+
+//@ -- ASSUMED about the persistent store behind the interface (storage.BadgerStore.WriteSnapshot; its own contract is C15's subject): it
+//@ -- writes the database only -- neither the node's memory nor the snapshot object. The ghost cell `storewrote` of the store object
+//@ -- records the position carried by the last snapshot handed over successfully, so that TopoWrite can say WHAT it persisted.
+//@ assume func (st storage.Store) WriteSnapshot(snap, signers)
+//@   requires snap != nil && snap.Snapshot != nil
+//@   modifies ghost storewrote
+//@   ensures err == nil ==> ghostint(storewrote, ptrof(recv)) == snap.TopologicalOrder
+
+//@ -- "positions assigned by the node increase strictly": every TopoWrite that returns has advanced the counter by exactly one, stamped the
+//@ -- returned snapshot with the NEW value and persisted it with that value (increment BEFORE the write). The counter is read and written
+//@ -- under its own mutex (`lockset TopoCounter`: syntactic critical-section argument, ext_lockset_counter.go), so two calls cannot obtain
+//@ -- the same value -- schedules themselves are not explored. Across restarts the counter is re-seeded from storage.LastSnapshot
+//@ -- (getTopologyCounter; storage.readLastTopology [upper]/[occupied]: the greatest occupied position).
+//@ -- maypanic: the two explicit panics are documented rejections (signer count mismatch; the store failed -- the node stops).
+//@ -- [no-wrap]: 2^64 - 1 snapshots are out of reach (one per nanosecond for 584 years); without it seq + 1 wraps to 0.
+//@ func (node *Node) TopoWrite
+//@   property C35
+//@   lockset TopoCounter
+//@   maypanic
+//@   requires node != nil && node.TopoCounter != nil && s != nil && s.Signature != nil && !isnil(node.persistStore) -- representation invariants of Node (SetupNode) / a finalized snapshot carries its signature
+//@   requires [maps] node.TopoCounter.filter != nil && node.TopoCounter.snapshotCounts != nil -- getTopologyCounter makes both maps
+//@   requires [no-wrap] node.TopoCounter.seq < 18446744073709551615
+//@   ensures [same-counter] node.TopoCounter == old(node.TopoCounter) && node.persistStore == old(node.persistStore)
+//@   ensures [next] node.TopoCounter.seq == old(node.TopoCounter.seq) + 1
+//@   ensures [position] result != nil && result.Snapshot == s && result.TopologicalOrder == node.TopoCounter.seq
+//@   ensures [persisted] ghostint(storewrote, ptrof(node.persistStore)) == node.TopoCounter.seq
+//@   loop 0 invariant node.TopoCounter == old(node.TopoCounter) && node.persistStore == old(node.persistStore) && node.TopoCounter.seq == old(node.TopoCounter.seq)
+//@   loop 0 invariant node.TopoCounter.filter != nil && node.TopoCounter.snapshotCounts != nil
